@@ -15,6 +15,7 @@ import (
 	"fmt"
 	"os"
 	"path/filepath"
+	"sort"
 	"strings"
 	"syscall"
 	"time"
@@ -244,6 +245,22 @@ func upExec(c *hlib.RunCtx, t *simrt.Tape) (*hlib.Violation, int) {
 	}
 	for k, n := range s.FaultsHit {
 		c.Notes["fault "+k] += n
+	}
+	if c.Prop == "C07" && m.viol == nil {
+		// C07 after a disk failure: whatever failed, a counter file that is gone
+		// belongs to a week that has a report.
+		var names []string
+		for p := range m.roundFiles {
+			names = append(names, p)
+		}
+		sort.Strings(names)
+		for _, p := range names {
+			mf := m.roundFiles[p]
+			if !exists(p) && !m.reportExists(mf.week) && m.viol == nil {
+				m.fail("removed-before-report", "after a failed file-system call %s is gone although no report for week %s exists", mf.base, mf.week)
+			}
+		}
+		return m.viol, s.FsCalls
 	}
 	if c.Prop == "C08" && m.viol == nil {
 		// C08 after a disk failure: two more runs on a healthy disk. Whatever the
